@@ -1,1 +1,44 @@
-// placeholder
+//! child module of maybenot-simulator::network (cfg(kani) only): constructors with private access
+use super::*;
+
+/// A bottleneck model exactly as `NetworkBottleneck::new` builds it, except that the two rate
+/// windows start with a capacity of 4 instead of 512 timestamps (the 8 KiB buffers make the
+/// propositional encoding run out of memory; capacity is not observable).
+pub(crate) fn small_bottleneck(network: Network, window: Duration, pps_limit: usize, added: Duration) -> NetworkBottleneck {
+    NetworkBottleneck {
+        network,
+        client_window: WindowCount { window, timestamps: VecDeque::with_capacity(4) },
+        server_window: WindowCount { window, timestamps: VecDeque::with_capacity(4) },
+        pps_added_delay: added,
+        client_aggregate_base_delay: Duration::default(),
+        server_aggregate_base_delay: Duration::default(),
+        aggregate_delay_queue: BinaryHeap::new(),
+        pps_limit,
+    }
+}
+
+/// contract of `NetworkBottleneck::sample` while the rate limit is not exceeded (decided for the
+/// real function by s_bottleneck_sample): the configured network delay, no extra delay
+pub(crate) fn sample_unlimited(this: &mut NetworkBottleneck, _current_time: &Instant, _is_client: bool) -> (Duration, Option<Duration>) {
+    (this.network.sample(), None)
+}
+
+/// the real `sample`: with at most `pps_limit` packets inside the window nothing is added to the
+/// configured delay (C14: the bottleneck derived from the trace's own peak rate never delays)
+#[kani::proof]
+#[kani::unwind(4)]
+fn s_bottleneck_sample() {
+    let delay = crate::verif_kani::any_duration_upto(10_000_000);
+    let limit: usize = kani::any();
+    kani::assume(limit >= 1);
+    let mut nb = small_bottleneck(Network::new(delay, Some(limit)), Duration::from_secs(1), limit, crate::verif_kani::any_duration_upto(1_000_000));
+    let t1 = crate::verif_kani::any_instant();
+    let is_client: bool = kani::any();
+    let (d1, e1) = nb.sample(&t1, is_client);
+    assert!(d1 == delay && e1.is_none(),
+        "C14: while the packets-per-second limit is not exceeded a packet is delayed by exactly the network delay");
+    let w = if is_client { &nb.client_window } else { &nb.server_window };
+    assert!(w.timestamps.len() == 1, "C19: the rate window holds the packet just sent");
+    kani::cover!(delay == Duration::ZERO, "zero network delay");
+    core::mem::forget(nb);
+}
